@@ -206,15 +206,36 @@ def _one_pass(F, an, entries, sites, tree):
         an.call_local(e, [None] * f.arg_count)
     # functions reachable only through over-approximated edges (extern callbacks, drop glue) are
     # analysed with unknown arguments
-    for p in sorted(tree or []):
-        if p not in getattr(an, "_reached", {}):
-            f = F.fns[p]
-            an.call_local(p, [None] * f.arg_count)
+    # A function none of whose call sites is feasible is dead; one that IA did not enter although a live block
+    # calls it (trait dispatch, callbacks, drop glue, closures, context limits) is analysed with unknown arguments.
+    callers = {}
+    for src in (tree or []):
+        for tp, b, k in F.cg.get(src, []):
+            callers.setdefault(tp, []).append((src, b, k))
+    changed = True
+    while changed:
+        changed = False
+        reached = getattr(an, "_reached", {})
+        for p in sorted(tree or []):
+            if p in reached:
+                continue
+            live_caller = False
+            for src, b, k in callers.get(p, []):
+                if src in reached and (b is None or b in reached[src]):
+                    live_caller = True
+                    break
+            if p in entries:
+                live_caller = True
+            if live_caller:
+                f = F.fns[p]
+                an.call_local(p, [None] * f.arg_count)
+                changed = True
     reached = getattr(an, "_reached", {})
     for s in sites:
         fp = s.f.path
         if fp not in reached:
-            s.detail = "function not analysed by IA (not reached through analysed calls)"
+            s.status = "dead"
+            s.detail = "every call site of the function is infeasible in every analysed context"
             continue
         if s.bb not in reached[fp]:
             s.status = "dead"
